@@ -19,10 +19,23 @@ ASSUMPTIONS = ["list repetition keeps the order of L in every block, so element 
 
 def run(ctx) -> None:
     ctx.guard("C19", check)
+    from .common import memo_rule
+
+    ctx.guard("C19.fresh-result", memo_rule, "C19.fresh-result", ("robotools/utils.py",))
 
 
 def _modulo_cycle(fv, rn):
-    """result = []; for i in range(n): result.append(L[i % len(L)])  ->  resolved L  (None if the return is not that loop)"""
+    """result = []; for i in range(n): result.append(L[i % M])   or   [L[i % M] for i in range(n)]
+    ->  (resolved L, resolved M)  (None if the return is not that idiom)"""
+    raw_ret, at_ret = fv.def_expr(rn.ast.value, rn.id)
+    if isinstance(raw_ret, ast.ListComp) and len(raw_ret.generators) == 1 and not raw_ret.generators[0].ifs and isinstance(raw_ret.generators[0].target, ast.Name):
+        g = raw_ret.generators[0]
+        it = fv.res.resolve(g.iter, at_ret)
+        elt = raw_ret.elt
+        if isinstance(it, ast.Call) and call_fname(it) == "range" and len(it.args) == 1 and is_name(it.args[0], "n") \
+                and isinstance(elt, ast.Subscript) and isinstance(elt.slice, ast.BinOp) and isinstance(elt.slice.op, ast.Mod) and is_name(elt.slice.left, g.target.id):
+            return fv.res.resolve(elt.value, at_ret), fv.res.resolve(elt.slice.right, at_ret)
+        return None
     root = fv.alias_root(rn.ast.value, rn.id)
     if not isinstance(root, ast.Name):
         return None
@@ -43,16 +56,11 @@ def _modulo_cycle(fv, rn):
         return None
     if fv.controlling(app.node, within=fv.cfg.loop_body[lp.id]):
         return None
-    # the loop is followed by the return without further changes (checked: single init, single append)
     raw = app.call.args[0]
     raw = fv.def_expr(raw, app.node)[0] if isinstance(raw, ast.Name) else raw
     if not (isinstance(raw, ast.Subscript) and isinstance(raw.slice, ast.BinOp) and isinstance(raw.slice.op, ast.Mod) and is_name(raw.slice.left, lp.ast.target.id)):
         return None
-    L = fv.res.resolve(raw.value, app.node)
-    m = fv.res.resolve(raw.slice.right, app.node)
-    if not (call_fname(m) == "len" and m.args and key(strip_norm(m.args[0])) == key(strip_norm(L))):
-        return None
-    return L
+    return fv.res.resolve(raw.value, app.node), fv.res.resolve(raw.slice.right, app.node)
 
 
 def check(ctx) -> None:
@@ -101,8 +109,19 @@ def check(ctx) -> None:
         if L2 is None:
             ctx.rep.inconclusive("C19.cycle", f"{f.qualname}/idiom", f"result `{show(val)[:80]}` is neither the repeat-and-truncate idiom (L * k)[:n] nor the loop [L[i % len(L)] for i in range(n)]", where=w)
             return
-        L = L2
+        L, M = L2
         base_ok = is_name(strip_norm(L), "trough_wells")
+        # the modulus is the number of wells that are cycled
+        same_base = call_fname(M) == "len" and M.args and key(strip_norm(M.args[0])) == key(strip_norm(L))
+        flat_L = bool([1 for ch in norm_chains(L) for nm, c in ch if nm in ("flatten", "ravel")])
+        flat_M = bool(same_base and [1 for ch in norm_chains(M.args[0]) for nm, c in ch if nm in ("flatten", "ravel")])
+        if same_base and (flat_M or not flat_L):
+            ctx.rep.holds("C19.cycle", f"{f.qualname}/modulus", "element i is L[i % len(L)]", where=w)
+        elif same_base:
+            ctx.rep.refuted("C19.cycle", f"{f.qualname}/modulus", f"the index is taken modulo `{show(M)[:50]}`, the length of the wells *before* they are flattened: for a 2-D collection that is "
+                            "the number of rows, so only the first column is cycled", where=w)
+        else:
+            ctx.rep.inconclusive("C19.cycle", f"{f.qualname}/modulus", f"cannot relate the modulus `{show(M)[:50]}` to the number of cycled wells", where=w)
         extra = seq_transformers(L)
         ctx.rep.check(base_ok and not extra, "C19.cycle", f"{f.qualname}/wells", "the cycled list is exactly the given wells",
                       f"the cycled list is `{show(L)[:80]}`: the given wells are transformed ({extra or 'different origin'}) before cycling - the cycle is not over all given wells in their order", where=w)
